@@ -82,6 +82,10 @@ Proof. exact nonempty_groups_eq. Qed.
 Theorem C17_space_file : forall v, wf_aset v ->
   exists a, build v = Ok a /\ size a = 12 + 4 * 257 + sets_space (as_sets v).
 Proof. exact space_file. Qed.
+(* ... which is the data-size field (offset 4) of the file image *)
+Theorem C17_space_file_bytes : forall m v f, wf_aset v -> 12 + 4 * 257 + sets_space (as_sets v) < 2 ^ 32 ->
+  serialize m v = Ok f -> u32_at LE f 4 = Some (12 + 4 * 257 + sets_space (as_sets v)).
+Proof. exact space_file_bytes. Qed.
 Theorem C17_space_empty_set : forall s, present_slots s = 0 -> set_space s = 4.
 Proof. exact space_empty_set. Qed.
 Theorem C17_absent_group_omitted : forall s g, group_nonempty s g = false -> group_cells s g = [].
